@@ -400,14 +400,22 @@ type c12Xlate struct {
 	sites      []c12Site // one per list FastNetworkSolver translates
 }
 
+// c12StripCT is the value-identity normaliser of the C12 rules: type changes are removed, and a read of a local
+// that lives in a memory cell only because a function literal captures it (a cell that is stored exactly once,
+// before the read, and that no literal does anything with but read: c04CellValue) is the value stored there.
 func c12StripCT(v ssa.Value) ssa.Value {
-	for {
-		ct, ok := v.(*ssa.ChangeType)
-		if !ok {
-			return v
+	for depth := 0; depth < 8; depth++ {
+		if ct, ok := v.(*ssa.ChangeType); ok {
+			v = ct.X
+			continue
 		}
-		v = ct.X
+		if held, ok := c04CellValue(v); ok {
+			v = held
+			continue
+		}
+		return v
 	}
+	return v
 }
 
 // c12ListElemId: t == L[i].Id for a list L accepted by isList and a non-constant index i. Returned are the terms of L and i.
@@ -638,4 +646,19 @@ func c12RangedLiteral(fn *ssa.Function, v ssa.Value) ([]ssa.Value, bool) {
 		}
 	}
 	return elems, true
+}
+
+// c12SumParts splits the term of `acc + a*b` (the summand on either side) into the running sum and the product.
+func c12SumParts(v *Term) (acc, prod *Term, ok bool) {
+	if v == nil || v.Op != "bin" || v.Name != "+" || len(v.Args) != 2 {
+		return nil, nil, false
+	}
+	isProd := func(t *Term) bool { return t.Op == "bin" && t.Name == "*" && len(t.Args) == 2 }
+	switch {
+	case isProd(v.Args[1]):
+		return v.Args[0], v.Args[1], true
+	case isProd(v.Args[0]):
+		return v.Args[1], v.Args[0], true
+	}
+	return nil, nil, false
 }
